@@ -141,9 +141,45 @@ def run(chk) -> None:
     _r19b(chk, repo)
     _r19c(chk, repo)
     _r19d(chk, repo)
+    chk.rule("R19e", "every entry point serialises the same set of violations: wherever violations obtained from get_violations() are turned into records (to_dict), the list was taken with filter_warning=False (warning-level violations are reported, marked `warning: true`, by the CLI and must not vanish from the API)")
+    _r19e(chk, repo)
 
 
 # ---------------------------------------------------------------------------
+def _r19e(chk, repo) -> None:
+    n = 0
+    for pre in ("src/sqlfluff/api/", "src/sqlfluff/cli/", "src/sqlfluff/core/linter/"):
+        for m in repo.iter_modules(pre):
+            for q, f in m.functions():
+                cfg = None
+                for node in walk_local(f):
+                    gens = []
+                    if isinstance(node, (ast.ListComp, ast.GeneratorExp, ast.SetComp)):
+                        if any(isinstance(c, ast.Call) and last_attr(c) == "to_dict" for c in ast.walk(node.elt)):
+                            gens = [g.iter for g in node.generators]
+                    elif isinstance(node, ast.For):
+                        if any(isinstance(c, ast.Call) and last_attr(c) == "to_dict" and isinstance(c.func, ast.Attribute) and isinstance(c.func.value, ast.Name)
+                               and c.func.value.id in {x.id for x in ast.walk(node.target) if isinstance(x, ast.Name)} for b in node.body for c in ast.walk(b)):
+                            gens = [node.iter]
+                    for it in gens:
+                        cfg = cfg or cfg_of(f)
+                        exprs = [it]
+                        if isinstance(it, ast.Name):
+                            exprs = [o.expr for o in origins(cfg, it, cfg.stmt_of(node) or node) if o.kind == "expr" and o.expr is not None]
+                        for e in exprs:
+                            for c in [x for x in ast.walk(e) if isinstance(x, ast.Call) and last_attr(x) == "get_violations" and isinstance(x.func, ast.Attribute)]:
+                                n += 1
+                                fw = kwarg(c, "filter_warning")
+                                chk.require(
+                                    isinstance(fw, ast.Constant) and fw.value is False, "R19e", c,
+                                    f"{q} turns `{short(c, 60)}` into records: without filter_warning=False the warning-level violations are dropped here while the other "
+                                    "entry points (records built in LintedDir.add) report them with `warning: true` -- the same SQL then yields different violation lists",
+                                    detail=f"{q}: records built from get_violations(filter_warning=False)",
+                                )
+    chk.count("R19e.record_builders", n)
+    chk.floor("R19e.record_builders", 1)
+
+
 def _canon_value(cfg, e: ast.expr, at, depth: int = 0):
     """A value identity for sibling-argument comparison: constants by value; a local bound
     once by a plain expression is replaced by that expression (at its definition); anything
@@ -606,6 +642,18 @@ def _r19c(chk, repo) -> None:
 from ..selftest import Variant  # noqa: E402
 
 VARIANTS = [
+    Variant(
+        "api-lint-serialises-filtered-violations", API,
+        "    result = linter.lint_string_wrapped(sql)\n    result_records = result.as_records()\n    # Return just the violations for this file\n    return [] if not result_records else result_records[0][\"violations\"]\n",
+        "    linted_file = linter.lint_string(sql)\n    return sorted((v.to_dict() for v in linted_file.get_violations()), key=lambda v: (v[\"start_line_no\"], v[\"start_line_pos\"], v[\"code\"]))\n",
+        "R19e", "lint", "seeded C19-3: warnings = CP01 -> the API drops the violation the CLI reports",
+    ),
+    Variant(
+        "quiet-linted-dir-records-through-local", "src/sqlfluff/core/linter/linted_dir.py",
+        "            (v.to_dict() for v in file.get_violations(filter_warning=False)),\n",
+        "            (v.to_dict() for v in file.get_violations(filter_ignore=True, filter_warning=False)),\n",
+        "QUIET", None, "explicit default for filter_ignore",
+    ),
     # behaviour-preserving refactors: must stay quiet
     Variant(
         "quiet-stdin-fix-option-read-inline", CLI,
